@@ -167,8 +167,8 @@ class Model:
                 mod.functions[st.name] = FunctionInfo(mod, st.name, st)
             elif isinstance(st, ast.Assign):
                 for t in st.targets:
-                    for n in _target_names(t):
-                        mod.assigns.setdefault(n, []).append(st.value)
+                    for n, e in _target_bindings(t, st.value):
+                        mod.assigns.setdefault(n, []).append(e)
             elif isinstance(st, ast.AnnAssign) and isinstance(st.target, ast.Name) and st.value is not None:
                 mod.assigns.setdefault(st.target.id, []).append(st.value)
             elif isinstance(st, ast.Import):
@@ -217,8 +217,8 @@ class Model:
                 c.nested[st.name] = self._index_class(mod, st, qualname + '.' + st.name, c)
             elif isinstance(st, ast.Assign):
                 for t in st.targets:
-                    for n in _target_names(t):
-                        c.assigns.setdefault(n, []).append(st.value)
+                    for n, e in _target_bindings(t, st.value):
+                        c.assigns.setdefault(n, []).append(e)
             elif isinstance(st, ast.AnnAssign) and isinstance(st.target, ast.Name) and st.value is not None:
                 c.assigns.setdefault(st.target.id, []).append(st.value)
         return c
@@ -550,14 +550,14 @@ class Model:
                 if isinstance(v, ast.Call) and ast.unparse(v.func).endswith('NewType') and len(expr.args) == 1:
                     return ev(expr.args[0])
             fn = ast.unparse(expr.func)
-            if fn in ('int', 'str', 'float', 'bool', 'list', 'tuple', 'len', 'chr', 'ord', 'dict', 'set', 'frozenset') and not expr.keywords:
+            if fn in ('int', 'str', 'float', 'bool', 'list', 'tuple', 'len', 'chr', 'ord', 'dict', 'set', 'frozenset', 'range') and not expr.keywords:
                 args = [ev(a) for a in expr.args]
                 if any(is_unknown(a) for a in args):
                     return Unknown('call arg')
                 try:
                     return {'int': int, 'str': str, 'float': float, 'bool': bool, 'list': list,
                             'tuple': tuple, 'len': len, 'chr': chr, 'ord': ord, 'dict': dict,
-                            'set': set, 'frozenset': frozenset}[fn](*args)
+                            'set': set, 'frozenset': frozenset, 'range': range}[fn](*args)
                 except Exception:
                     return Unknown('call')
             if fn.endswith('stringletters') and not expr.args:
@@ -629,6 +629,25 @@ def _target_names(t):
     elif isinstance(t, (ast.Tuple, ast.List)):
         for e in t.elts:
             yield from _target_names(e)
+
+
+def _target_bindings(t, value):
+    """(name, expression) pairs of an assignment `t = value`; unpacking gives each name its own element."""
+    if isinstance(t, ast.Name):
+        yield t.id, value
+    elif isinstance(t, (ast.Tuple, ast.List)):
+        if any(isinstance(e, ast.Starred) for e in t.elts):
+            for n in _target_names(t):
+                yield n, ast.copy_location(ast.Call(func=ast.Name(id='__unknown_unpacking__', ctx=ast.Load()), args=[], keywords=[]), value)
+            return
+        for i, e in enumerate(t.elts):
+            if isinstance(value, (ast.Tuple, ast.List)) and len(value.elts) == len(t.elts) and not any(isinstance(x, ast.Starred) for x in value.elts):
+                sub = value.elts[i]
+            else:
+                sub = ast.Subscript(value=value, slice=ast.Constant(value=i), ctx=ast.Load())
+                ast.copy_location(sub, value)
+                ast.copy_location(sub.slice, value)
+            yield from _target_bindings(e, sub)
 
 
 def load(root):
